@@ -692,9 +692,36 @@ example : prefixErrorRatesCol (α := Int) ⟨some 0, false, false, ⟨1, 2, 3⟩
     = [1, 0, -7, -7, -7, -7] := by decide +kernel
 example := C02_eos_padding_is_unpadded (α := Int) ⟨none, true, false, ⟨1, 1, 2⟩, false, -100⟩ 9
   [1, 2, 3] [2, 3] [9, 4] [] (by decide) (by decide)
+-- (audit F: the instance given here before - eos 9 counted, columns `[1, 9, 5]` / `[2, 9]` - left the two
+-- transcript hypotheses UNAPPLIED, and they were false on it (`[1, 2] ≠ [1, 9]`). All four hypotheses together:
+-- two different eos conventions (eos 0 not counted / eos 2 counted), different padded sizes (4 vs 5, 2 vs 2),
+-- different contents behind the lengths, same transcripts `[1, 2]` / `[2]`.)
 example := C02_size_independent (α := Int) ⟨some 0, false, true, ⟨1, 1, 2⟩, false, -100⟩
-  ⟨some 9, true, true, ⟨1, 1, 2⟩, false, -100⟩ [1, 2, 0, 7] [1, 9, 5] [2, 0] [2, 9] rfl rfl
+  ⟨some 2, true, true, ⟨1, 1, 2⟩, false, -100⟩ [1, 2, 0, 7] [1, 2, 5, 5, 5] [2, 0] [2, 7] rfl rfl
+  (by decide) (by decide)
+example : errorRateCol (α := Int) ⟨some 0, false, true, ⟨1, 1, 2⟩, false, -100⟩ [1, 2, 0, 7] [2, 0] = 1 / 2
+    ∧ errorRateCol (α := Int) ⟨some 2, true, true, ⟨1, 1, 2⟩, false, -100⟩ [1, 2, 5, 5, 5] [2, 7] = 1 / 2 := by
+  decide +kernel
+-- C02_size_independent_prefix, all six hypotheses: `exclude_last`, eos 0 not counted with filler behind it vs.
+-- eos 9 counted but absent, padded sizes 4 / 4 vs 2 / 2, different padding values; entry k = 1 is reported
+example := C02_size_independent_prefix (α := Int) ⟨some 0, false, true, ⟨1, 2, 3⟩, true, -7⟩
+  ⟨some 9, true, true, ⟨1, 2, 3⟩, true, -9⟩ [1, 2, 0, 7] [1, 2] [2, 1, 0, 4] [2, 1] rfl rfl rfl
+  (by decide) (by decide) 1 (by decide)
+example : prefixErrorRatesCol (α := Int) ⟨some 0, false, true, ⟨1, 2, 3⟩, true, -7⟩ [1, 2, 0, 7] [2, 1, 0, 4]
+      = [1, 1 / 2, -7, -7]
+    ∧ prefixErrorRatesCol (α := Int) ⟨some 9, true, true, ⟨1, 2, 3⟩, true, -9⟩ [1, 2] [2, 1] = [1, 1 / 2] := by
+  decide +kernel
 example := C02_table_causal (α := Int) ⟨1, 1, 2⟩ [1, 2] [0, 7] [2, 0] 1 false
+-- the instance is not degenerate: the longer table has two more columns, a live and a frozen row
+example : rowsP (α := Int) ⟨1, 1, 2⟩ ([1, 2] ++ [0, 7]) [2, 0] 1 false
+      = [[(0, 0), (1, 1), (2, 2), (3, 3), (4, 4)], [(1, 1), (2, 1), (1, 1), (2, 2), (3, 3)],
+         [(1, 1), (2, 1), (1, 1), (2, 2), (3, 3)]]
+    ∧ rowsP (α := Int) ⟨1, 1, 2⟩ [1, 2] [2, 0] 1 false
+      = [[(0, 0), (1, 1), (2, 2)], [(1, 1), (2, 1), (1, 1)], [(1, 1), (2, 1), (1, 1)]] := by
+  decide +kernel
+-- C02_fast_batch / C02_fast_mer have no hypotheses; on the batch of C02_batch_append_padding:
+example : errorRateBatchFast (α := Int) ⟨some 0, false, false, ⟨1, 1, 2⟩, false, -100⟩ false 2
+    [[1, 3], [2, 0], [0, 5]] [[2, 0], [0, 1]] 0 = [1, 1] := by decide +kernel
 example := C02_batch_append_padding (α := Int) ⟨some 0, false, false, ⟨1, 1, 2⟩, false, -100⟩ 0 rfl 2
   [[1, 3], [2, 0], [0, 5]] [[2, 0], [0, 1]] [[7, 7]] [[8, 8], [0, 0]] 0
   (by intro n hn; have : n = 0 ∨ n = 1 := by omega
